@@ -349,6 +349,9 @@ def observe(cfg, want):
     if s1.get("skipped"):
         obs["solve_skipped"] = True
         return obs
+    if any(q[1] == 0 for q in opsdrive._flat_pairs(s1["gamma"])):
+        obs["solve_skipped"] = True          # the derived source is not a small rational: not decided exactly
+        return obs
     obs["r_solve"] = s1["r_solve"]
     gam_small = opsdrive.to_float_array(s1["gamma"])
     tr = cfg["tr"]
